@@ -18,7 +18,7 @@ func statusFilterIn(r *Run, f *core.FuncInfo, depth int) bool {
 	c := f.Ctx()
 	okObj := r.W.LookupObj("types.ExecOk")
 	found := false
-	ast.Inspect(f.Body(), func(x ast.Node) bool {
+	core.InspectBody(f, func(x ast.Node) bool {
 		b, ok := x.(*ast.BinaryExpr)
 		if !ok || found {
 			return true
@@ -46,7 +46,7 @@ func statusFilterIn(r *Run, f *core.FuncInfo, depth int) bool {
 	}
 	// helpers on the same receiver
 	var helpers []*core.FuncInfo
-	ast.Inspect(f.Body(), func(x ast.Node) bool {
+	core.InspectBody(f, func(x ast.Node) bool {
 		if call, ok := x.(*ast.CallExpr); ok {
 			if fn := core.Callee(c.Info, call); fn != nil && f.Obj != nil {
 				if s1, s2 := fn.Type().(*types.Signature).Recv(), f.Obj.Type().(*types.Signature).Recv(); s1 != nil && s2 != nil && types.Identical(s1.Type(), s2.Type()) {
@@ -151,7 +151,7 @@ func init() {
 					recordDriven := false
 					for _, g := range append([]*core.FuncInfo{del}, func() []*core.FuncInfo {
 						var hs []*core.FuncInfo
-						ast.Inspect(del.Body(), func(x ast.Node) bool {
+						core.InspectBody(del, func(x ast.Node) bool {
 							if call, ok := x.(*ast.CallExpr); ok {
 								if h := r.W.FuncOf(core.Callee(del.Info(), call)); h != nil {
 									hs = append(hs, h)
@@ -161,7 +161,7 @@ func init() {
 						})
 						return hs
 					}()...) {
-						ast.Inspect(g.Body(), func(x ast.Node) bool {
+						core.InspectBody(g, func(x ast.Node) bool {
 							if call, ok := x.(*ast.CallExpr); ok {
 								if fn := core.Callee(g.Info(), call); fn != nil && core.ShortName(fn) == "system/dapp.(*DriverBase).DelRollbackKV" {
 									recordDriven = true
